@@ -4,16 +4,49 @@ from vlib import std, lab, common
 
 PID = "C12"
 META = {
-    "text": "",   # filled at the end of this file
-    "note": "",
-    "technique": "Coq proof (case analysis of the transcribed refreshCheck/refreshStaleness/timestampsSet/hdrExpirationTime "
-                 "decision code with linear integer arithmetic over Z, induction over request histories for the store invariant) "
-                 "+ constants regenerated from refresh.cc + end-to-end differential correspondence of the extracted model against "
-                 "the running squid under a scripted (frozen, LD_PRELOAD) clock + independent oracle",
+    "text": "Theorems (Properties_C12.v, 13, closed under the global context) about the transcribed decision code "
+            "(hdrExpirationTime, timestampsSet, refreshStaleness, refreshCheck, refreshIsCachable, the cacheHit and "
+            "haveParsedReplyHeaders dispatch), for ALL replies, times, requests, response delays and ALL heuristic factors: "
+            "the stored expiry never exceeds receipt + explicit lifetime (s-maxage, else max-age, else Expires-Date); once that "
+            "instant has passed a request without max-stale is never answered from the cache under any configuration without "
+            "override-expire/offline_mode (per decision and, by induction with the store invariant, at every step of every request "
+            "history on a URL); Cache-Control no-cache / max-age=0 requests always reach the origin; stale must-revalidate / "
+            "proxy-revalidate responses are never served, max-stale or not; refreshCheck answers 'fresh' only in an explicit list "
+            "of situations; conversely a plain request before the stored expiry is a hit. Three statements are PARTIAL and the "
+            "full-strength versions are REFUTED with witnesses confirmed on the running proxy (known findings): a negative computed "
+            "expiry is read as 'no expiry' (Date ahead of the proxy clock + Expires at the epoch + Last-Modified), an unparsable "
+            "Expires with a Date older than 24 h yields a lifetime of now-Date, and request max-age=0 is ignored for immutable "
+            "responses. Tie: reason codes, the implicit default rule and 600 lm-factor products regenerated from refresh.cc; the "
+            "default directive values read back from the running proxy's cache manager; the extracted model diffed against the "
+            "real squid (built from the working tree) on generated request histories under a clock scripted to the exact second.",
+    "note": "partial: the theorems are about the transcribed functions (RefreshModel.v); that the event-driven proxy applies exactly "
+            "these decisions (store lookup, cacheHit, processExpired, timestampsSet on every fetch, replacement of the cached entry "
+            "on each origin contact) rests on the end-to-end correspondence (forward-proxy GET, 200 replies, memory cache, default "
+            "refresh rules). Not modelled: Vary, negative caching, collapsed forwarding, stale-if-error, 304 replies to revalidation, "
+            "request no-store, ICP/HTCP. Header parsing of Cache-Control/Date/Expires is outside (C27/C29): scenarios send well-formed "
+            "values. refreshStaleness' narrowing of time_t differences to int is modelled; theorems assume now + min-fresh < 2^31. "
+            "Trusted: Coq kernel, extraction, gen/gen_refresh.cc, lab/shim_ftime.c (frozen LD_PRELOAD clock), vlib/lab.py stubs.",
+    "technique": "Coq proof (one case analysis of the transcribed refreshCheck tree characterising every 'fresh' answer, linear integer "
+                 "arithmetic over Z for timestampsSet/hdrExpirationTime, induction over request histories for the store invariant, "
+                 "vm_compute witnesses) + constants regenerated from refresh.cc + end-to-end differential correspondence of the "
+                 "extracted model against the running squid under a scripted clock + independent oracle",
 }
 
 T_BASE = 1790000000          # scenario start times are spread above this (2026-09-21)
 ANY = 2147483647
+
+# proxy configurations: squid.conf lines, and the same configuration as ml/run_refresh.ml's 17 integers
+#   min,max,rule max-stale, refresh-ims,store-stale,override-expire,override-lastmod,reload-into-ims,ignore-reload,
+#   ignore-no-store,ignore-private, max_stale,minimum_expiry_time,refresh_all_ims,reload_into_ims,offline_mode,nocache-hack
+# "default" is the subject of the property; B and C exercise the configured-override branches of refreshCheck in the
+# correspondence only (the oracle does not apply to them: they are the property's "configured overrides" exception).
+CONFIGS = {
+    "default": ("", "default"),
+    "B": ("refresh_pattern . 2 20% 4320 override-expire override-lastmod ignore-reload max-stale=500\n",
+          "120,259200,500,0,0,1,1,0,1,0,0,604800,60,0,0,0,1"),
+    "C": ("refresh_pattern . 1 20% 60 reload-into-ims\nminimum_expiry_time 10 seconds\nmax_stale 300 seconds\n",
+          "60,3600,-1,0,0,0,0,1,0,0,0,300,10,0,0,0,1"),
+}
 
 
 # ------------------------------------------------------------------ scripted clock
@@ -138,7 +171,7 @@ def to_case(s):
     for st in s["steps"]:
         now = s["t0"] + st["dt"]
         toks.append(",".join(str(x) for x in [now, 0] + request_parsed(st) + reply_parsed(s["reps"][st["rep"]], now)))
-    return "refresh.hist default " + " ".join(toks)
+    return "refresh.hist %s %s" % (CONFIGS[s.get("cfg", "default")][1], " ".join(toks))
 
 
 # ------------------------------------------------------------------ generation
@@ -204,7 +237,13 @@ def gen_request(rng, L, elapsed):
 
 
 def gen_one(rng, k):
+    cfg = "default" if k % 5 < 3 else ("B" if k % 5 == 3 else "C")
     rep, L = gen_reply(rng)
+    if cfg != "default" and rng.random() < 0.5:
+        L = rng.choice([0, 30, 59, 60, 61, 100, 119, 120, 121])
+        for key in ("maxage", "smaxage"):
+            if key in rep: rep[key] = L
+        if rep.get("expires") and rep["expires"][0] == "rel": rep["expires"] = ["rel", L]
     reps = [rep]
     if rng.random() < 0.12:
         reps.append(gen_reply(rng)[0])
@@ -217,7 +256,10 @@ def gen_one(rng, k):
         if rep.get("date") is not None and -86400 <= rep["date"] < 0: X = L + rep["date"]
         if rep.get("age") is not None: X = min(X, L - rep["age"])
         X = max(X, 0)
-        target = last_contact + rng.choice([X - 2, X - 1, X - 1, X, X, X + 1, X + 2, X // 2, 2 * X + 10, X + 61, 0, 1])
+        cand = [X - 2, X - 1, X - 1, X, X, X + 1, X + 2, X // 2, 2 * X + 10, X + 61, 0, 1]
+        if cfg == "B": cand += [119, 120, 121, X + 499, X + 500, X + 501]
+        if cfg == "C": cand += [59, 60, 61, X + 299, X + 300, X + 301]
+        target = last_contact + rng.choice(cand)
         t = max(t, target) if rng.random() < 0.9 else t + rng.randrange(0, 3)
         st = gen_request(rng, X, t - last_contact)
         st["dt"] = t
@@ -225,7 +267,9 @@ def gen_one(rng, k):
         steps.append(st)
         if t - last_contact >= X or "no-cache" in st.get("cc", []) or "max-age=0" in st.get("cc", []):
             last_contact = t
-    return {"t0": T_BASE + 200000 * k + rng.randrange(0, 100000), "reps": reps, "steps": steps}
+    out = {"t0": T_BASE + 200000 * k + rng.randrange(0, 100000), "reps": reps, "steps": steps}
+    if cfg != "default": out["cfg"] = cfg
+    return out
 
 
 def gen_scenarios(rng, n):
@@ -236,23 +280,28 @@ def gen_scenarios(rng, n):
 _state = {}
 
 
-def _squid(L):
-    if "sq" in _state and _state["sq"].alive():
-        return
-    ck = FrozenClock(L)
-    ck.set(T_BASE)
-    _state["ck"] = ck
+def _squid(L, cfg):
+    if "ck" not in _state:
+        ck = FrozenClock(L)
+        ck.set(T_BASE)
+        _state["ck"] = ck
 
-    def hook(rec, spec):
-        cur = _state.get("cur")
-        if not cur or rec["rid"] != cur[0]:
-            return {"status": 500, "body": "unexpected"}
-        rep = cur[1]
-        return {"headers": reply_headers(rep, ck.t), "nodate": True, "body": rep.get("body", "body")}
+        def hook(rec, spec):
+            cur = _state.get("cur")
+            if not cur or rec["rid"] != cur[0]:
+                return {"status": 500, "body": "unexpected"}
+            rep = cur[1]
+            return {"headers": reply_headers(rep, ck.t), "nodate": True, "body": rep.get("body", "body")}
 
-    _state["org"] = L.origin(hook=hook)
-    _state["sq"] = L.squid(env=ck.env(), extra_conf="cachemgr_passwd none config\n")   # only opens the config report
-    _state["n"] = 0
+        _state["org"] = L.origin(hook=hook)
+        _state["sq"] = {}
+        _state["n"] = 0
+    sq = _state["sq"].get(cfg)
+    if sq is None or not sq.alive():
+        # "cachemgr_passwd none config" only opens the cache manager's config report
+        sq = L.squid(env=_state["ck"].env(), extra_conf="cachemgr_passwd none config\n" + CONFIGS[cfg][0])
+        _state["sq"][cfg] = sq
+    return sq
 
 
 def mgr_config(sq):
@@ -274,8 +323,9 @@ def mgr_config(sq):
                                  "negative_ttl", "vary_ignore_expire", "collapsed_forwarding", "refresh_pattern_lines"))
 
 
-def run_one(s):
-    sq, org, ck = _state["sq"], _state["org"], _state["ck"]
+def run_one(L, s):
+    sq = _squid(L, s.get("cfg", "default"))
+    org, ck = _state["org"], _state["ck"]
     if s.get("kind") == "config":
         return mgr_config(sq)
     _state["n"] += 1
@@ -312,11 +362,10 @@ def run_one(s):
 
 
 def run_impl(L, scenarios):
-    _squid(L)
     order = sorted(range(len(scenarios)), key=lambda i: scenarios[i].get("t0", 0))
     obs = [None] * len(scenarios)
     for i in order:     # sequential: all scenarios share the scripted clock
-        obs[i] = run_one(scenarios[i])
+        obs[i] = run_one(L, scenarios[i])
     return obs
 
 
@@ -333,6 +382,19 @@ def explicit_lifetime(rep, recv):
     return 0                                                                 # unparsable Expires = already expired
 
 
+def defect_tag(rep):
+    """names the two known ways a reply's explicit lifetime gets lost (independent of the model): an Expires date in the
+    first day of the epoch together with a Date ahead of the proxy's clock or an Age header (the computed expiry goes
+    negative), and an unparsable Expires together with a Date more than 24 h old"""
+    ex = rep.get("expires")
+    if ex and rep.get("smaxage") is None and rep.get("maxage") is None:
+        if ex[0] == "bad" and rep.get("date") is not None and rep["date"] < -86400:
+            return "unparsable-expires-old-date"
+        if ex[0] == "abs" and ex[1] < 86400 * 2 and ((rep.get("date") or 0) > 0 or rep.get("age") is not None):
+            return "negative-expiry"
+    return "other"
+
+
 def oracle(s, obs):
     """With default refresh rules: (1) once the explicit lifetime of the response Squid last obtained has passed (counted
     from the moment Squid received it, the most lenient reading), a request without max-stale is never answered from the
@@ -340,9 +402,11 @@ def oracle(s, obs):
     (or gets 504 under only-if-cached); (3) a response marked must-revalidate/proxy-revalidate whose lifetime has passed is
     never served without contact, max-stale or not."""
     if s.get("kind") == "config":
-        if obs.startswith("config max_stale="):
+        if obs.startswith("config max_stale=") and obs.endswith("refresh_pattern_lines=0"):
             return None
         return ("oracle:not-default-config", "the proxy does not run with default refresh rules: " + obs)
+    if s.get("cfg", "default") != "default":
+        return None     # configured overrides: outside the property, correspondence only
     toks = obs.split()
     if len(toks) != len(s["steps"]) or any(t.split(":")[0] not in ("hit", "reval", "miss", "oic") or "!" in t for t in toks):
         return ("oracle:no-transaction", "a transaction did not complete as scripted: " + obs)
@@ -353,8 +417,8 @@ def oracle(s, obs):
         cc = st.get("cc", [])
         if kind == "hit":
             if "no-cache" in cc or cc_value(cc, "max-age") == 0:
-                imm = held is not None and "immutable" in held[0].get("cc", [])
-                return ("oracle:reload-served-from-cache" + (":immutable" if imm else ""),
+                imm = held is not None and "immutable" in held[0].get("cc", []) and "no-cache" not in cc
+                return ("oracle:reload-served-from-cache" + (":immutable" if imm else ":other"),
                         "request with Cache-Control: %s at t0+%d was answered from the cache without contacting the origin"
                         % (", ".join(cc), st["dt"]))
             if held is not None:
@@ -363,12 +427,11 @@ def oracle(s, obs):
                 if L is not None and now >= recv + L:
                     rcc = rep.get("cc", [])
                     if "must-revalidate" in rcc or "proxy-revalidate" in rcc:
-                        return ("oracle:must-revalidate-stale-hit",
-                                "a must-revalidate response received at t0+%d with lifetime %d s was served at t0+%d without contact"
-                                % (recv - s["t0"], L, st["dt"]))
+                        return ("oracle:must-revalidate-stale-hit:" + defect_tag(rep),
+                                "a must-revalidate response (%s) received at t0+%d with lifetime %d s was served at t0+%d without contact"
+                                % (json.dumps(rep), recv - s["t0"], L, st["dt"]))
                     if cc_value(cc, "max-stale") is None:
-                        neg = "negative-expiry" if (rep.get("expires") and L < 0) else "positive"
-                        return ("oracle:stale-hit:" + neg,
+                        return ("oracle:stale-hit:" + defect_tag(rep),
                                 "response received at t0+%d with explicit lifetime %d s (%s) was served from the cache at t0+%d "
                                 "(%d s after receipt) without contacting the origin and without max-stale"
                                 % (recv - s["t0"], L, json.dumps(rep), st["dt"], now - recv))
@@ -378,7 +441,12 @@ def oracle(s, obs):
 
 
 def kind_fn(s, o):
-    return "config" if s.get("kind") == "config" else ",".join(t.split(":")[0] for t in o.split())
+    if s.get("kind") == "config":
+        return "config"
+    if s.get("cfg"):
+        return "override configuration " + s["cfg"]
+    later = sorted(set(t.split(":")[0].split("!")[0] for t in o.split()[1:]))
+    return "later requests: " + ("+".join(later) if later else "none")
 
 
 def nontrivial_fn(s, o):
@@ -402,8 +470,7 @@ def run(res, tier):
                     to_case=to_case, oracle=oracle, corr_name="RefreshModel (run_history) vs the running squid",
                     n_quick=260, n_thorough=6000, seed_salt=12, kind_fn=kind_fn, nontrivial_fn=nontrivial_fn)
     finally:
-        sq = _state.get("sq")
-        if sq is not None:
+        for sq in _state.get("sq", {}).values():
             try:
                 sq.kill()      # the frozen clock never reaches shutdown_lifetime
             except Exception:
